@@ -15,6 +15,8 @@ package protocol
 //@   invariant loop#1: forall k in 0..rangeindex+1: !otherrole(vars[k].Variable, device)
 //@   invariant loop#1: dir.EthIface != nil ==> (*dir.EthIface < 10 || *dir.EthIface == 20)
 //@   invariant loop#1: dir.WlanIface != nil ==> (*dir.WlanIface < 10 || *dir.WlanIface == 21)
+//@   invariant loop#1: dir.ServerCert != nil && dir.ServerCA != nil ==> dir.ServerCert != dir.ServerCA
+//@   ensures @certhashes result != nil && result.ServerCert != nil && result.ServerCA != nil ==> result.ServerCert != result.ServerCA
 //@   ensures @rolefilter result != nil ==> forall k in 0..len(vars): !otherrole(vars[k].Variable, device)
 //@   ensures @medium result != nil && result.EthIface != nil ==> (*result.EthIface < 10 || *result.EthIface == 20)
 //@   ensures @mediumw result != nil && result.WlanIface != nil ==> (*result.WlanIface < 10 || *result.WlanIface == 21)
